@@ -19,6 +19,8 @@
    default_ops.py, tensor_ops.py, pspace_ops.py, diff_ops.py. *)
 From Coq Require Import ZArith QArith List Bool.
 From Verif Require Import Base.Num Base.Vec Lib.Axis C13.Syntax Gen.FiniteDiff C13.Model C13.ModelNd.
+(* resize_array: model and generated slice arithmetic of C16 (qualified names: its pmode / Forward clash with C13's) *)
+From Verif Require C16.Syntax Gen.Padding C16.Model C16.ModelNd.
 Import ListNotations.
 Local Open Scope num_scope.
 
@@ -111,17 +113,18 @@ Inductive leaf :=
 | LProjAdj (ws : list (list T)) (pw : list T) (i : nat)
 | LPtInner (wb pw : list T) (g : list (list T)) (ow : list T)     (* PointwiseInner *)
 | LPtInnerAdj (wb pw : list T) (g : list (list T)) (ow : list T)  (* PointwiseInnerAdjoint *)
+(* ResizingOperator (pad_const = 0) and the operator it returns as adjoint: resize_array along axis 0, 1, ...
+   (C16.ModelNd.sep_loop), direction 'forward' from ishape to oshape / 'adjoint' from oshape back to ishape *)
+| LResize (wd wr : list T) (rm : C16.Syntax.pmode) (ishape oshape : list nat) (offs : list Z)
+| LResizeAdj (wd wr : list T) (rm : C16.Syntax.pmode) (ishape oshape : list nat) (offs : list Z)
 | LPDeriv (wd wr : list T) (shape : list nat) (ax : nat) (m : meth) (p : pmode) (dx : T)
 | LGrad (wd wr : list T) (shape : list nat) (m : meth) (p : pmode) (dxs : list T)
 | LDiv (wd wr : list T) (shape : list nat) (m : meth) (p : pmode) (dxs : list T)
 | LLap (wd wr : list T) (shape : list nat) (p : pmode) (dxs : list T)
 (* real <-> complex (used at the real carriers only: C^n is R^2n = re ++ im, weights w ++ w) *)
 | LRealR (w : list T) | LImagR (w : list T)           (* RealPart / ImagPart on a real space *)
-(* [fx]: variant switch of finding realpart-complex-adjoint-domain, measured on the code by the
-   harness: false = RealPart(X).adjoint is ComplexEmbedding(X, ..) (domain X, as in the pinned
-   source), true = ComplexEmbedding(X.real_space, ..) *)
-| LRealC (w : list T) (fx : bool) | LImagC (w : list T) (fx : bool)   (* on a complex space, w = real weights *)
-| LEmbedR (w : list T) (sr si : T) (fx : bool)        (* ComplexEmbedding(real space, s) *)
+| LRealC (w : list T) | LImagC (w : list T)           (* on a complex space, w = real weights *)
+| LEmbedR (w : list T) (sr si : T)                    (* ComplexEmbedding(real space, s) *)
 | LEmbedC (w : list T) (sr si : T).                   (* ComplexEmbedding(complex space, s) *)
 
 Definition leaf_dom (l : leaf) : list T :=
@@ -136,8 +139,9 @@ Definition leaf_dom (l : leaf) : list T :=
   | LPtInner wb pw _ _ => pweights pw (map (fun _ => wb) pw)
   | LPtInnerAdj wb _ _ _ => wb
   | LPDeriv wd _ _ _ _ _ _ | LGrad wd _ _ _ _ _ | LDiv wd _ _ _ _ _ | LLap wd _ _ _ _ => wd
-  | LRealR w | LImagR w | LEmbedR w _ _ _ => w
-  | LRealC w _ | LImagC w _ | LEmbedC w _ _ => w ++ w
+  | LResize wd _ _ _ _ _ | LResizeAdj wd _ _ _ _ _ => wd
+  | LRealR w | LImagR w | LEmbedR w _ _ => w
+  | LRealC w | LImagC w | LEmbedC w _ _ => w ++ w
   end.
 Definition leaf_ran (l : leaf) : list T :=
   match l with
@@ -151,8 +155,9 @@ Definition leaf_ran (l : leaf) : list T :=
   | LPtInner wb _ _ _ => wb
   | LPtInnerAdj wb pw _ _ => pweights pw (map (fun _ => wb) pw)
   | LPDeriv _ wr _ _ _ _ _ | LGrad _ wr _ _ _ _ | LDiv _ wr _ _ _ _ | LLap _ wr _ _ _ => wr
-  | LRealR w | LImagR w | LRealC w _ | LImagC w _ => w
-  | LEmbedR w _ _ _ | LEmbedC w _ _ => w ++ w
+  | LResize _ wr _ _ _ _ | LResizeAdj _ wr _ _ _ _ => wr
+  | LRealR w | LImagR w | LRealC w | LImagC w => w
+  | LEmbedR w _ _ | LEmbedC w _ _ => w ++ w
   end.
 
 (* sum_i ow_i * x_i * conj(g_i) over the k blocks of x (block length n) *)
@@ -206,6 +211,10 @@ Definition eval_leaf (l : leaf) (x : list T) : list T :=
   | LProjAdj ws _ i => zeros (offset ws i) ++ x ++ zeros (total ws - offset ws i - length (nth i ws []))
   | LPtInner wb _ g ow => ptinner (length wb) g ow x
   | LPtInnerAdj _ pw g ow => ptinner_adj g pw ow x
+  | LResize _ _ rm ishape oshape offs =>
+      C16.ModelNd.sep_loop rm C16.Syntax.Forward nzero true 1 ishape oshape offs x
+  | LResizeAdj _ _ rm ishape oshape offs =>
+      C16.ModelNd.sep_loop rm C16.Syntax.Adjoint nzero true 1 oshape ishape offs x
   | LPDeriv _ _ shape ax m p dx => pderiv shape ax m p nzero dx x
   | LGrad _ _ shape m p dxs => concat (gradient shape m p nzero dxs x)
   | LDiv _ _ shape m p dxs =>
@@ -213,9 +222,9 @@ Definition eval_leaf (l : leaf) (x : list T) : list T :=
   | LLap _ _ shape p dxs => laplacian shape p nzero dxs x
   | LRealR _ => x
   | LImagR w => zeros (length w)
-  | LRealC w _ => firstn (length w) x
-  | LImagC w _ => skipn (length w) x
-  | LEmbedR _ sr si _ => vscal sr x ++ vscal si x
+  | LRealC w => firstn (length w) x
+  | LImagC w => skipn (length w) x
+  | LEmbedR _ sr si => vscal sr x ++ vscal si x
   | LEmbedC _ sr si => cscale sr si x
   end.
 
@@ -310,6 +319,8 @@ Definition leaf_adjoint (l : leaf) : oexpr :=
   | LProjAdj ws pw i => Leaf (LProj ws pw i)
   | LPtInner wb pw g ow => Leaf (LPtInnerAdj wb pw g ow)
   | LPtInnerAdj wb pw g ow => Leaf (LPtInner wb pw g ow)
+  | LResize wd wr rm ishape oshape offs => Leaf (LResizeAdj wr wd rm ishape oshape offs)
+  | LResizeAdj wd wr rm ishape oshape offs => Leaf (LResize wr wd rm ishape oshape offs)
   | LPDeriv wd wr shape ax m p dx =>
       LScal (- none_) (Leaf (LPDeriv wr wd shape ax (adj_method m) (adj_padding p) dx))
   | LGrad wd wr shape m p dxs =>
@@ -319,14 +330,12 @@ Definition leaf_adjoint (l : leaf) : oexpr :=
   | LLap wd wr shape p dxs => Leaf (LLap wr wd shape p dxs)
   | LRealR w => Leaf (LRealR w)
   | LImagR w => Leaf (LZero w w)
-  | LRealC w fx =>                                      (* ComplexEmbedding(self.domain, 1) *)
-      if fx then Leaf (LEmbedR w none_ nzero fx) else Leaf (LEmbedC w none_ nzero)
-  | LImagC w fx =>                                      (* ComplexEmbedding(self.domain, 1j) *)
-      if fx then Leaf (LEmbedR w nzero none_ fx) else Leaf (LEmbedC w nzero none_)
-  | LEmbedR w sr si fx =>
-      if si =? nzero then LScal sr (Leaf (LRealC w fx))
-      else if sr =? nzero then LScal si (Leaf (LImagC w fx))
-      else Sum (LScal sr (Leaf (LRealC w fx))) (LScal si (Leaf (LImagC w fx)))
+  | LRealC w => Leaf (LEmbedR w none_ nzero)            (* ComplexEmbedding(self.range, 1) *)
+  | LImagC w => Leaf (LEmbedR w nzero none_)            (* ComplexEmbedding(self.range, 1j) *)
+  | LEmbedR w sr si =>
+      if si =? nzero then LScal sr (Leaf (LRealC w))
+      else if sr =? nzero then LScal si (Leaf (LImagC w))
+      else Sum (LScal sr (Leaf (LRealC w))) (LScal si (Leaf (LImagC w)))
   | LEmbedC w sr si => Leaf (LEmbedC w sr (- si))
   end.
 
